@@ -34,7 +34,7 @@
 
    Not modelled: the four loops running concurrently inside one coordinator (join_all over a batch of ten proxies is
    taken in list order, which is what happens when no call is ever pending), timers, the HTTP layer, the failure
-   detector / handler rounds (they only add broker operations: BrokerAdvance).
+   detector / handler rounds (here they only add broker operations: BrokerAdvance; they are modelled in Model/CtrlFail.v).
    Executable definitions only. *)
 From UM Require Import Base.BytesDef.
 
